@@ -198,8 +198,14 @@ def decide_equal(a, b, seed=0, trials=6):
     d = d.xreplace(rep)
     from sympy.core.function import AppliedUndef
     rep = {}
+    signed = set()
     for ap in sorted(d.atoms(AppliedUndef), key=str):
-        rep[ap] = sp.Dummy(str(ap), positive=True)
+        if ap.is_positive:
+            rep[ap] = sp.Dummy(str(ap), positive=True)
+        else:
+            # a function that is only known to be real (an autocorrelation rho(t), a fluctuation) takes both signs
+            rep[ap] = sp.Dummy(str(ap), real=True)
+            signed.add(rep[ap])
     d = d.xreplace(rep)
     # search for an exact counter-point
     syms = sorted(d.free_symbols, key=lambda s: s.name)
@@ -209,6 +215,9 @@ def decide_equal(a, b, seed=0, trials=6):
     for _ in range(trials * 3):
         sub = {s: (sp.Integer(rnd.randint(2, 9)) if s.is_integer else
                    sp.Float(sp.Rational(rnd.randint(2, 40), rnd.randint(1, 9)) + (1 if s.is_positive else 0), 50)) for s in syms}
+        for s_ in syms:
+            if s_ in signed and rnd.random() < 0.5:
+                sub[s_] = -sub[s_]
         try:
             with time_limit(5):
                 v = d.xreplace(sub)
@@ -227,6 +236,10 @@ def decide_equal(a, b, seed=0, trials=6):
         if evaluated >= trials:
             break
     if evaluated and nonzero == evaluated:
+        return False
+    if signed and nonzero >= 2:
+        # terms that agree for one sign of a real-valued function and differ for the other (abs / max(x, 0)): a point where the
+        # difference is non-zero at 40 digits is a counter-example
         return False
     if evaluated >= trials and nonzero == 0:
         # numerically zero at all points with 40 digits although simplification did not close:
